@@ -6,7 +6,7 @@ PID = 'C06'
 
 
 def run(chk):
-    simmon.run_property(chk, PID)
+    simmon.run_property(chk, PID, n_thorough=1500)
 
 
 def replay(chk, rp):
